@@ -414,6 +414,14 @@ func (r *intraProxyStreamReceiver) GetLastWatermark() *replicationv1.WorkflowRep
 
 // NotifyNewTargetShard notifies the receiver about a newly registered target shard
 func (r *intraProxyStreamReceiver) NotifyNewTargetShard(targetShardID history.ClusterShardID) {
+	// This receiver carries the traffic of one (target shard, source shard) pair. Its last
+	// watermark says that the source has nothing outstanding below it on THIS pair's stream;
+	// the same source's tasks for another target shard travel on that shard's own stream and
+	// may still be queued there. Replaying the watermark to another shard would let that shard
+	// acknowledge tasks it has not received yet.
+	if targetShardID != r.targetShardID {
+		return
+	}
 	r.sendPendingWatermarkToShard(targetShardID)
 }
 
